@@ -44,6 +44,8 @@ for i in range(1, 21):
             continue
         r = res.get(f"{pid}:seeded/{sname}/patch.diff")
         status = ("caught by " + ",".join(c for c in r["clauses"] if c.startswith("C"))) if r and r["caught"] else ("NOT CAUGHT" if r else "not run")
+        if str(m.get("status", "")).startswith("neutralised"):
+            status = "no longer breaks the property (" + m["status"] + ")"
         first = "" if m.get("first_attempt") != "missed" else f" (missed at first: {m.get('strengthening', '')})"
         what = re.sub(r"\s+", " ", (m.get("needs_to_manifest") or ""))
         what = re.sub(r"[|`*#]", "", what)[:150]
